@@ -108,6 +108,8 @@ def Net.exec (g : Net) (now : Nat) (i j : Nat) : Net × Obs :=
   | [] => (g, [])
   | it :: rest =>
     let g := g.setQueue i j rest
+    -- `publish` / `execute`: nothing is sent to an ISOLATED instance (messages may still be queued when it is isolated)
+    if g.view i j = .isolated then (g, []) else
     match it with
     | .tick k =>
       if g.reachable i j then ({ g with inbox := g.inbox.set j (g.inbox.getD j [] ++ [some (.rtick i k)]) }, [])
